@@ -155,22 +155,50 @@ def load_prop(pid: str):
 
 
 def shard_main(pid: str, tier: str, seed: int, shard: int, nshards: int, out: str) -> int:
+    """Run this shard's cases, appending one JSON line per case to `out` (so that a crash of the interpreter - e.g. a
+    segfault inside a third-party library - loses at most the case in flight; the runner restarts the shard, which skips
+    what is done and retries the interrupted case once)."""
     import faulthandler  # noqa: PLC0415
 
     mod = load_prop(pid)
     wd = getattr(mod, "SHARD_WATCHDOG", {"quick": 1500, "thorough": 10800})[tier]
     faulthandler.dump_traceback_later(wd, exit=True)
-    res = {"cases": [], "error": None}
+    outp = Path(out)
+    done, started = set(), Counter()
+    if outp.exists():
+        for line in outp.read_text().splitlines():
+            try:
+                rec = json.loads(line)
+            except Exception:  # noqa: BLE001  a torn last line
+                continue
+            if "started" in rec:
+                started[rec["started"]] += 1
+            elif "idx" in rec:
+                done.add(rec["idx"])
+    fh = outp.open("a")
+
+    def emit(rec):
+        fh.write(json.dumps(rec) + "\n")
+        fh.flush()
+
     tmp = Path(tempfile.mkdtemp(prefix=f"verif_{pid}_"))
+    error = None
+    n_total = None
     try:
         bind_repo()
         preimport()
         ctx = Ctx(tier, seed, tmp)
         cases = mod.gen_cases(tier, seed)
-        res["n_cases_total"] = len(cases)
+        n_total = len(cases)
         for idx, desc in enumerate(cases):
-            if idx % nshards != shard:
+            if idx % nshards != shard or idx in done:
                 continue
+            if started[idx] >= 2:
+                emit(jsonable({"idx": idx, "desc": desc, "inconclusive": "the interpreter crashed twice while running this case (third-party crash, not a verdict)"}))
+                continue
+            emit({"started": idx})
+            if os.environ.get("VERIF_CRASH_ONCE") == str(idx) and started[idx] == 0:  # runner self-test: die like a segfault would
+                os.kill(os.getpid(), 11)
             try:
                 out_c = mod.run_case(desc, ctx) or {}
             except Inconclusive as e:
@@ -179,14 +207,17 @@ def shard_main(pid: str, tier: str, seed: int, shard: int, nshards: int, out: st
                 out_c = {"inconclusive": "harness error: " + traceback.format_exc()[-1500:]}
             out_c["idx"] = idx
             out_c["desc"] = desc
-            res["cases"].append(jsonable(out_c))
+            if started[idx] >= 1:
+                out_c.setdefault("counters", {})["cases_retried_after_interpreter_crash"] = 1
+            emit(jsonable(out_c))
     except Inconclusive as e:
-        res["error"] = str(e)
+        error = str(e)
     except Exception:
-        res["error"] = traceback.format_exc()[-3000:]
+        error = traceback.format_exc()[-3000:]
     finally:
         shutil.rmtree(tmp, ignore_errors=True)
-    Path(out).write_text(json.dumps(res))
+    emit({"finished": True, "error": error, "n_cases_total": n_total})
+    fh.close()
     return 0
 
 
@@ -222,34 +253,63 @@ def run_property(pid: str, tier: str, seed: int, replay: str | None = None) -> i
     nshards = int(getattr(mod, "SHARDS", {"quick": NCPU, "thorough": NCPU})[tier])
     timeout = getattr(mod, "SHARD_WATCHDOG", {"quick": 1500, "thorough": 10800})[tier] + 30
     tmp = Path(tempfile.mkdtemp(prefix=f"verif_run_{pid}_"))
-    procs = []
-    for s in range(nshards):
-        out = tmp / f"shard{s}.json"
-        log = open(tmp / f"shard{s}.log", "w")  # noqa: SIM115
-        p = subprocess.Popen(  # noqa: S603
-            [PY, "-m", "vlib.core", "--shard", pid, tier, str(seed), str(s), str(nshards), str(out)],
-            cwd=str(VERIF), env=env, stdout=log, stderr=subprocess.STDOUT,
+
+    def launch(s_):
+        out_ = tmp / f"shard{s_}.jsonl"
+        log_ = open(tmp / f"shard{s_}.log", "a")  # noqa: SIM115
+        p_ = subprocess.Popen(  # noqa: S603
+            [PY, "-m", "vlib.core", "--shard", pid, tier, str(seed), str(s_), str(nshards), str(out_)],
+            cwd=str(VERIF), env=env, stdout=log_, stderr=subprocess.STDOUT,
         )
-        procs.append((p, out, log, s))
+        return p_, out_, log_
+
+    def read(out_):
+        recs, fin = [], None
+        if out_.exists():
+            for line in out_.read_text().splitlines():
+                try:
+                    rec = json.loads(line)
+                except Exception:  # noqa: BLE001
+                    continue
+                if rec.get("finished"):
+                    fin = rec
+                elif "idx" in rec:
+                    recs.append(rec)
+        return recs, fin
+
+    procs = {s_: launch(s_) for s_ in range(nshards)}
+    restarts = Counter()
     inconclusive = []
     cases = []
     deadline = time.time() + timeout
-    for p, out, log, s in procs:
-        try:
-            p.wait(timeout=max(1, deadline - time.time()))
-        except subprocess.TimeoutExpired:
-            p.kill()
-            p.wait()
-            inconclusive.append(f"shard {s}: watchdog fired")
-        log.close()
-        if out.exists():
-            r = json.loads(out.read_text())
-            if r.get("error"):
-                inconclusive.append(f"shard {s}: {r['error'][-800:]}")
-            cases.extend(r["cases"])
-        else:
-            tail = (tmp / f"shard{s}.log").read_text()[-1500:]
-            inconclusive.append(f"shard {s}: no result (exit {p.returncode}): {tail}")
+    pending = set(procs)
+    while pending:
+        for s_ in sorted(pending):
+            p_, out_, log_ = procs[s_]
+            try:
+                p_.wait(timeout=0.2)
+            except subprocess.TimeoutExpired:
+                if time.time() > deadline:
+                    p_.kill()
+                    p_.wait()
+                    log_.close()
+                    inconclusive.append(f"shard {s_}: watchdog fired")
+                    cases.extend(read(out_)[0])
+                    pending.discard(s_)
+                continue
+            log_.close()
+            recs, fin = read(out_)
+            if fin is None and restarts[s_] < 4:
+                restarts[s_] += 1   # the interpreter died (e.g. a segfault in a third-party library): resume where it stopped
+                procs[s_] = launch(s_)
+                continue
+            pending.discard(s_)
+            cases.extend(recs)
+            if fin is None:
+                tail = (tmp / f"shard{s_}.log").read_text()[-1500:]
+                inconclusive.append(f"shard {s_}: no result after {restarts[s_]} restarts (exit {p_.returncode}): {tail}")
+            elif fin.get("error"):
+                inconclusive.append(f"shard {s_}: {fin['error'][-800:]}")
     shutil.rmtree(tmp, ignore_errors=True)
     cases.sort(key=lambda c: c["idx"])
 
